@@ -6,7 +6,8 @@
 
       application is left-nested; in Classic notation a name resolves to its
       innermost binder, otherwise it is free and numbered, in order of first
-      appearance, above the binders in scope. *)
+      appearance, above the binders in scope.  Three passes, each a few lines:
+      lexer automaton, name resolution (lexical scoping by recursion), parser. *)
 From LC Require Export Spec.Chars.
 
 Inductive atok := TLam (binder : name) | TLp | TRp | TIdx (n : nat) | TName (s : name).
@@ -43,7 +44,8 @@ Fixpoint lex_cla (st : lstate) (i : nat) (s : list cchar) : lex_result :=
   | [] => match st with
           | LTop => LexOk []
           | LName nm => LexOk [TName nm]
-          | _ => LexBad                       (* a binder without its dot *)
+          | LBinder0 => LexOk [TLam []]       (* a binder cut off by the end of the input: the parser *)
+          | LBinder nm => LexOk [TLam nm]     (* rejects it, a lambda without body is ill-formed     *)
           end
   | c :: r =>
       let push (t : atok) (res : lex_result) := match res with LexOk ts => LexOk (t :: ts) | e => e end in
@@ -56,7 +58,7 @@ Fixpoint lex_cla (st : lstate) (i : nat) (s : list cchar) : lex_result :=
         else LexBadStart i (code c) in
       match st with
       | LTop => top tt
-      | LBinder0 => if is_alphabetic c && negb (is_char c_dot c) then lex_cla (LBinder [code c]) (S i) r else LexBad
+      | LBinder0 => if is_alphabetic c then lex_cla (LBinder [code c]) (S i) r else LexBad
       | LBinder nm =>
           if is_char c_dot c then push (TLam nm) (lex_cla LTop (S i) r)
           else if is_alphanumeric c then lex_cla (LBinder (nm ++ [code c])) (S i) r
@@ -67,68 +69,93 @@ Fixpoint lex_cla (st : lstate) (i : nat) (s : list cchar) : lex_result :=
       end
   end.
 
-(** ** parser *)
+(** ** name resolution: lexical scoping by recursion.
+
+    [env]: the binders in scope, innermost first (a binder is in scope from its dot to the end of
+    its group, so leaving a group restores the caller's [env]); [frees]: the free names in order of
+    first appearance.  A name resolves to the position of its innermost binder, otherwise it is free
+    and numbered above all binders in scope.  The pass emits one index token per input token and
+    stops after an unmatched closing parenthesis (which the parser below then rejects). *)
+Notation itok := token (only parsing).
+Notation ILam := Lambda (only parsing). Notation ILp := Lparen (only parsing).
+Notation IRp := Rparen (only parsing). Notation IIdx := Number (only parsing).
+
 Fixpoint index_of (nm : name) (l : list name) : option nat :=
   match l with
   | [] => None
   | x :: r => if name_eqb x nm then Some 0 else option_map S (index_of nm r)
   end.
 
+Fixpoint res_group (fuel : nat) (env frees : list name) (toks : list atok)
+  : list itok * list atok * list name :=
+  match fuel with 0 => ([], toks, frees) | S f =>
+    match toks with
+    | [] => ([], [], frees)
+    | TLam b :: r =>
+        let '(o, rest, fr) := res_group f (b :: env) frees r in (ILam :: o, rest, fr)
+    | TLp :: r =>
+        let '(o1, rest1, fr1) := res_group f env frees r in
+        (* the group ended at its closing parenthesis (or at the end of the input) *)
+        let '(o2, rest2, fr2) := res_group f env fr1 (tl rest1) in
+        (ILp :: o1 ++ o2, rest2, fr2)
+    | TRp :: _ => ([IRp], toks, frees)
+    | TIdx n :: r =>
+        let '(o, rest, fr) := res_group f env frees r in (IIdx n :: o, rest, fr)
+    | TName s :: r =>
+        match index_of s env with
+        | Some i => let '(o, rest, fr) := res_group f env frees r in (IIdx (S i) :: o, rest, fr)
+        | None =>
+            let frees' := match index_of s frees with Some _ => frees | None => frees ++ [s] end in
+            let j := match index_of s frees' with Some j => j | None => 0 end in
+            let '(o, rest, fr) := res_group f env frees' r in (IIdx (length env + j + 1) :: o, rest, fr)
+        end
+    end
+  end.
+Definition resolve (toks : list atok) : list itok :=
+  let '(o, _, _) := res_group (S (length toks)) [] [] toks in o.
+
+(** ** parser for the grammar  G ::= A+ | A* λ G,  A ::= index | ( G ) *)
 Definition apps (ts : list term) : option term :=
   match ts with [] => None | t :: r => Some (fold_left App r t) end.
 
-(** [env]: binders in scope, innermost first; [frees]: free names in order of first appearance *)
-Fixpoint rgroup (fuel : nat) (env frees : list name) (toks : list atok) {struct fuel}
-  : option (term * list atok * list name) :=
+Fixpoint rgroup (fuel : nat) (toks : list itok) {struct fuel} : option (term * list itok) :=
   match fuel with 0 => None | S f =>
-    let fix ratoms (fuel2 : nat) (frees : list name) (toks : list atok) {struct fuel2}
-      : option (list term * list atok * list name) :=
+    let fix ratoms (fuel2 : nat) (toks : list itok) {struct fuel2} : option (list term * list itok) :=
       match fuel2 with 0 => None | S f2 =>
         match toks with
-        | TIdx n :: r =>
-            match ratoms f2 frees r with Some (ts, r', fr) => Some (Var n :: ts, r', fr) | None => None end
-        | TName s :: r =>
-            match index_of s env with
-            | Some i => match ratoms f2 frees r with Some (ts, r', fr) => Some (Var (S i) :: ts, r', fr) | None => None end
-            | None =>
-                let frees' := match index_of s frees with Some _ => frees | None => frees ++ [s] end in
-                match index_of s frees' with
-                | Some j => match ratoms f2 frees' r with
-                            | Some (ts, r', fr) => Some (Var (length env + j + 1) :: ts, r', fr)
-                            | None => None end
-                | None => None
-                end
-            end
-        | TLp :: r =>
-            match rgroup f env frees r with
-            | Some (t, TRp :: r', frees') =>
-                match ratoms f2 frees' r' with Some (ts, r'', fr) => Some (t :: ts, r'', fr) | None => None end
+        | IIdx n :: r =>
+            match ratoms f2 r with Some (ts, r') => Some (Var n :: ts, r') | None => None end
+        | ILp :: r =>
+            match rgroup f r with
+            | Some (t, IRp :: r') =>
+                match ratoms f2 r' with Some (ts, r'') => Some (t :: ts, r'') | None => None end
             | _ => None
             end
-        | _ => Some ([], toks, frees)
+        | _ => Some ([], toks)
         end
       end in
-    match ratoms fuel frees toks with
+    match ratoms fuel toks with
     | None => None
-    | Some (atoms, rest, frees1) =>
+    | Some (atoms, rest) =>
         match rest with
-        | TLam b :: rest' =>
-            match rgroup f (b :: env) frees1 rest' with
-            | Some (body, rest'', frees2) =>
-                match apps (atoms ++ [Abs body]) with
-                | Some t => Some (t, rest'', frees2)
-                | None => None
-                end
+        | ILam :: rest' =>
+            match rgroup f rest' with
+            | Some (body, rest'') =>
+                match apps (atoms ++ [Abs body]) with Some t => Some (t, rest'') | None => None end
             | None => None
             end
-        | _ => match apps atoms with Some t => Some (t, rest, frees1) | None => None end
+        | _ => match apps atoms with Some t => Some (t, rest) | None => None end
         end
     end
   end.
 
-Definition rparse (toks : list atok) : option term :=
-  match rgroup (S (length toks)) [] [] toks with
-  | Some (t, [], _) => Some t
+(** De Bruijn notation has no names: its tokens are index tokens already *)
+Definition idx_tokens (ts : list atok) : list itok :=
+  map (fun t => match t with TLam _ => ILam | TLp => ILp | TRp => IRp | TIdx n => IIdx n | TName _ => IIdx 0 end) ts.
+
+Definition rparse (toks : list itok) : option term :=
+  match rgroup (S (length toks)) toks with
+  | Some (t, []) => Some t
   | _ => None
   end.
 
@@ -139,7 +166,7 @@ Inductive ref_result :=
 
 Definition ref_parse (classic : bool) (s : list cchar) : ref_result :=
   match (if classic then lex_cla LTop 0 s else lex_dbr 0 s) with
-  | LexOk ts => match rparse ts with Some t => RefOk t | None => RefErr end
+  | LexOk ts => match rparse (if classic then resolve ts else idx_tokens ts) with Some t => RefOk t | None => RefErr end
   | LexBadStart i c => RefBadStart i c
   | LexBad => RefErr
   end.
